@@ -18,5 +18,5 @@ CONSTANTS
   Ops = {"post1", "post2", "gc", "tickgc", "tick", "get"}
 VIEW View
 INVARIANTS WellFormed
-PROPERTIES BestEffort StartRule TimeoutRule PastEndResolves OnlyResolvedCollected GCCollects RefusalCounted
+PROPERTIES BestEffort StartRule TimeoutRule PastEndResolves SubmissionOrder OnlyResolvedCollected GCCollects RefusalCounted
 CHECK_DEADLOCK FALSE
